@@ -208,7 +208,9 @@ def part_spec(p, sp=None):
         else:
             out[name] = cond_spec(c, sp)
 
-    if p.ctype in ("map", "mol"):
+    if p.ctype == "mol" and getattr(p, "generic", False) and not isinstance(simp(p.key), Null):
+        out["condition"] = cond_spec(simp(p.key), sp)
+    elif p.ctype in ("map", "mol"):
         put("key", p.key)
     if p.ctype in ("list", "mol"):
         put("index", p.index)
